@@ -366,7 +366,7 @@ func init() {
 	fw.Register(&fw.Property{
 		ID:          "C11",
 		Level:       "exploration",
-		Rule:        "all labelled commit DAGs with <=2 parents per commit for n<=5 (616 shapes; thorough n<=6, 9856 shapes) x timestamp modes {increasing, equal, decreasing, random with ties}: IsAncestorOf for all ordered pairs, a PopInsertParents walk from every head, SeekCommonAncestor for all ordered pairs and (n<=5) all ordered triples plus sampled 3/4-tuples, each compared with ancestor sets computed by the harness; plus seeded random DAGs to n=30 with octopus merges; distinct_nontrivial = distinct (shape, timestamp mode) with >=2 commits; exhaustive within the stated bound",
+		Rule:        "all labelled commit DAGs with <=2 parents per commit for n<=5 (616 shapes; thorough n<=6, 9856 shapes) x timestamp modes {increasing, equal, decreasing, random with ties}: IsAncestorOf for all ordered pairs, three seeded programs of interrupted and resumed walks on CommitsQueue (pop-and-insert-parents, RemoveAncestors, PopUntil, Seen) against a pending-set model incl. the commit object handed out with every sum, a PopInsertParents walk from every head, SeekCommonAncestor for all ordered pairs and (n<=5) all ordered triples plus sampled 3/4-tuples, each compared with ancestor sets computed by the harness; plus seeded random DAGs to n=30 with octopus merges; distinct_nontrivial = distinct (shape, timestamp mode) with >=2 commits; exhaustive within the stated bound",
 		Assumptions: []string{"which common ancestor is chosen is free unless an input is itself a common ancestor"},
 		Gen: func(tier string, seed int64) []fw.Case {
 			l := fw.NewCaseList("C11", tier, seed)
